@@ -251,6 +251,19 @@ def r16d(ctx):
             f = repo.func(f"Element.{name}")
             ctx.report("R16d", f, f.node, f"Element.{name} reads {reads}, search reads {ref}",
                        f"{name} reads {reads} while search reads {ref}: positions returned by one do not index the text read by the other")
+    # … and apply the caller's pattern as it is: the same `re` call shape everywhere — pattern and text, no flags (MULTILINE moves ^ and $ to every line
+    # break of the text, IGNORECASE/DOTALL change what matches), no pre-compilation with flags
+    for name in ("search", "search_first", "search_all", "replace"):
+        f = repo.func(f"Element.{name}")
+        recalls = [c for c in walk_no_nested(f.node) if isinstance(c, ast.Call) and isinstance(c.func, ast.Attribute) and isinstance(c.func.value, ast.Name) and c.func.value.id == "re"
+                   and c.func.attr in ("search", "match", "fullmatch", "finditer", "findall", "compile", "sub", "subn", "split")]
+        bad = [c for c in recalls if any(k.arg == "flags" for k in c.keywords) or len(c.args) > (1 if c.func.attr == "compile" else 2 if c.func.attr not in ("sub", "subn") else 3)]
+        if recalls:
+            ctx.instance("R16d", f"src/odfdo/element.py:Element.{name}", f"{len(recalls)} re call(s) with the caller's pattern and no flags", ok=not bad, nontrivial=True)
+        for c in bad[:1]:
+            ctx.report("R16d", f, c, f"{norm(c, 60)} passes flags",
+                       f"Element.{name} applies the pattern with extra flags (`{norm(c, 50)}`): anchors, case or '.' then behave differently from the same regular expression applied to "
+                       f"the element's text — and differently from the sibling methods")
     m = repo.func("Element.match")
     ok = any(isinstance(c, ast.Call) and call_name(c) == "search" and isinstance(c.func, ast.Attribute) and isinstance(c.func.value, ast.Name)
              and c.func.value.id == "self" for c in walk_no_nested(m.node))
@@ -594,6 +607,35 @@ def r16j(ctx):
     ctx.extra["truth_tests_on_names_in_replace"] = n_truth
 
 
+def r16k(ctx):
+    """The slots replace() writes through store what they are given.
+
+    replace() puts the substituted run back with `container.text = …` or `container.tail = …` (R16b).  Those two setters of Element are the
+    last hands the string passes through: they may turn None into "", nothing else.  A filter there (control characters, a strip) changes
+    the replacement and the untouched text around it, and only in the runs that happen to be a `.text` — the `.tail` runs keep it.
+    """
+    from .c14 import _lossy_call
+    repo = ctx.repo
+    ctx.rule("R16k", "the Element.text / Element.tail setters store the string they are given (None becomes '')", floor=2)
+    for prop in ("text", "tail"):
+        f = repo.find_func(f"Element.{prop}", "setter")
+        if f is None:
+            raise AnalysisError(f"R16k: setter of Element.{prop} not found")
+        par = [a.arg for a in f.node.args.args if a.arg != "self"][0]
+        bad = [x for x in walk_no_nested(f.node) if isinstance(x, ast.Call) and _lossy_call(x)]
+        stores = [a for a in walk_no_nested(f.node) if isinstance(a, ast.Assign) and isinstance(a.targets[0], ast.Attribute) and a.targets[0].attr == prop]
+        for a in stores:
+            v = a.value
+            core = v.values[0] if isinstance(v, ast.BoolOp) and isinstance(v.op, ast.Or) else v
+            if not (isinstance(core, ast.Name) and core.id == par):
+                bad.append(a)
+        ctx.instance("R16k", f"{f.file}:{f.ident}", f"{len(stores)} store(s) of the parameter itself", ok=not bad and bool(stores), nontrivial=True, line=f.node.lineno)
+        for x in bad[:1]:
+            ctx.report("R16k", f, x, f"Element.{prop} setter: {norm(x, 50)}",
+                       f"the setter of Element.{prop} does not store its argument as given (`{norm(x, 50)}`): replace() writes every substituted run back through it, so characters of the "
+                       f"replacement and of the neighbouring text are lost or changed in those runs")
+
+
 def run(ctx):
     arm, else_incs, loop = r16a(ctx)
     r16b(ctx, arm, else_incs, loop)
@@ -605,12 +647,16 @@ def run(ctx):
     r16h(ctx)
     r16i(ctx)
     r16j(ctx)
+    r16k(ctx)
 
 
 from ..selftest import Seed, unparse_seed  # noqa: E402
 
 _EL = "src/odfdo/element.py"
 SEEDS = [
+    Seed("search_first applies the pattern with MULTILINE", "fault", _EL, "        match = re.search(pattern, self.text_recursive)\n        if match is None:\n            return None\n        return match.start(), match.end()",
+         "        match = re.search(pattern, self.text_recursive, re.MULTILINE)\n        if match is None:\n            return None\n        return match.start(), match.end()", "R16d"),
+    Seed("Element.text setter filters control characters and the tab", "fault", _EL, "            self.__element.text = text\n", "            self.__element.text = _re_anyspace.sub(\" \", text)\n", "R16k"),
     Seed("ParagraphBase gets a __len__", "fault", "src/odfdo/paragraph_base.py", "    def get_formatted_text(\n        self,\n        context: dict | None = None,\n        simple: bool = False,\n    ) -> str:\n        if not context:",
          "    def __len__(self) -> int:\n        return len(self.inner_text)\n\n    def get_formatted_text(\n        self,\n        context: dict | None = None,\n        simple: bool = False,\n    ) -> str:\n        if not context:", "R16j"),
     Seed("ParagraphBase gets a text_length method", "neutral", "src/odfdo/paragraph_base.py", "    def get_formatted_text(\n        self,\n        context: dict | None = None,\n        simple: bool = False,\n    ) -> str:\n        if not context:",
